@@ -331,6 +331,12 @@ func judge(c *core.Ctx, cf cfg, h *hist.History, verbose bool) {
 				if !res.IsErr || res.AnalysisErr && res.ErrCode != 0 {
 					executed[target] = true
 				}
+				// "executed (successfully or not)": an Execute/ExecuteToHTML on the handle itself
+				// counts whatever it returned, also "incomplete or empty template" of a handle that
+				// New declared without a body (seeded C07-m9, C07-m10)
+				if (op.Kind == "exec" || op.Kind == "exechtml") && res.Panic == "" {
+					executed[target] = true
+				}
 			}
 		}
 		model.Apply(op, res)
